@@ -46,9 +46,19 @@ def generate(seed, tier):
         for (m, n) in rnd.sample(mn, min(len(mn), 5 if quick else 30)) + (rnd.sample(vec_n, min(2, len(vec_n))) if quick else vec_n):
             tn, tk = ty()
             add('C05|write2d|%s|%dx%d|%dx%d' % (tk, M, N, m, n), 'VP_CASE("@KEY@", vp::c05::write2d<%s,%d,%d,%d,%d>);' % (tn, M, N, m, n))
-        for (m, n) in rnd.sample(mn, 1 if quick else 4):
+        for (m, n) in rnd.sample(mn, 2 if quick else 4):
             tn, tk = ty()
             add('C05|write2d-eval|%s|%dx%d|%dx%d' % (tk, M, N, m, n), 'VP_CASE("@KEY@", vp::c05::write2d_eval<%s,%d,%d,%d,%d>);' % (tn, M, N, m, n))
+    # right-hand sides that need evaluation first go through their own overload of every operator in every view class
+    for (N, m) in ([(9, 4), (17, 8), (5, 5)] if quick else [(9, 4), (17, 8), (5, 5), (12, 3), (20, 16), (7, 1)]):
+        tn, tk = ty()
+        add('C05|write1d-eval|%s|N=%d|m=%d' % (tk, N, m), 'VP_CASE("@KEY@", vp::c05::write1d_eval<%s,%d,%d>);' % (tn, N, m))
+    for (N, F, L) in ([(9, 2, 7), (16, 0, 16)] if quick else [(9, 2, 7), (16, 0, 16), (17, 1, 17), (5, 4, 5)]):
+        tn, tk = ty()
+        add('C05|fixed1d-eval|%s|N=%d|%d:%d' % (tk, N, F, L), 'VP_CASE("@KEY@", vp::c05::fixed1d_eval<%s,%d,%d,%d>);' % (tn, N, F, L))
+    for (M, N, F0, L0, F1, L1) in ([(5, 7, 1, 4, 2, 6), (8, 9, 0, 8, 1, 9)] if quick else [(5, 7, 1, 4, 2, 6), (8, 9, 0, 8, 1, 9), (4, 4, 0, 4, 0, 4), (3, 17, 2, 3, 0, 16)]):
+        tn, tk = ty()
+        add('C05|fixed2d-eval|%s|%dx%d|%d:%d,%d:%d' % (tk, M, N, F0, L0, F1, L1), 'VP_CASE("@KEY@", vp::c05::fixed2d_eval<%s,%d,%d,%d,%d,%d,%d>);' % (tn, M, N, F0, L0, F1, L1))
     for dims in [(4, 5, 6), (3, 4, 2, 5), (2, 3, 2, 3, 4), (5, 2, 9), (3, 4, 16), (2, 2, 3, 8), (2, 3, 33)]:
         for rep in range(2 if quick else 8):
             ms = [rnd.randrange(1, d + 1) for d in dims]
